@@ -597,6 +597,24 @@ class Splicer:
                 n += 1
         # ghost statements
         for gh in fs.ghosts:
+            tag_ = " //@ %s %s" % (gh.name, ",".join(gh.props))
+            text_ = "".join("%s%s\n" % (l, tag_) for l in gh.text.rstrip("\n").split("\n"))
+            if gh.where == "at-start":
+                self.insert_after(body_lo, "\n" + text_)
+                continue
+            if gh.where in ("before-loop", "loop-start"):
+                nth = int(gh.anchor or "1")
+                if nth > len(lps):
+                    if gh.mandatory:
+                        raise Undecided("ghost loop anchor lost: %s loop %d" % (key, nth))
+                    g.meta["skipped_anchors"].append({"fn": key, "kind": "ghost", "name": gh.name, "expected": "loop %d" % nth, "found": None})
+                    continue
+                l_ = lps[nth - 1]
+                if gh.where == "before-loop":
+                    self.insert_before(l_["at"], text_ + "                ")
+                else:
+                    self.insert_after(l_["brace"], "\n" + text_)
+                continue
             pos = find_anchor(toks, body_lo + 1, body_hi, gh.anchor)
             if pos is None:
                 if gh.mandatory:
